@@ -1,11 +1,49 @@
-from jsim.envs.base import Adapter
+"""FlatPack: rules written from docs/environments/flat_pack.md, the FlatPack class docstring and reward.py docstrings.
+
+A grid of num_rows x num_cols cells (0 = empty, n = covered by block number n) and num_blocks blocks, each a 3x3 array
+whose non-zero cells (all equal to the block's number) are its shape. An action [block, rotation, row, col] rotates the
+block by `rotation` quarter turns (direction learnt from utils.rotate_block: clockwise) and puts the top-left corner
+of the rotated 3x3 array on cell (row, col); row <= num_rows-3 and col <= num_cols-3, so the array is always inside
+the grid. It is legal iff the block has not been placed yet and none of its non-zero cells lands on a covered cell.
+An illegal action is ignored (nothing placed, reward 0). The episode ends when the grid is filled or after num_blocks
+steps. Reward: cell-dense = cells of the placed block / cells of the grid; block-dense = 1 / num_blocks per placed block.
+"""
+from __future__ import annotations
+
+from typing import Any, Dict, List, Optional, Tuple
+
+import numpy as np
+
 from jsim.envs._mk import cfg
+from jsim.envs.base import Adapter
+
+
+def _rot(block: np.ndarray, k: int) -> np.ndarray:
+    """k clockwise quarter turns of a 3x3 array: the cell at (i, j) comes from (2 - j, i)."""
+    out = np.asarray(block)
+    for _ in range(int(k) % 4):
+        out = np.array([[out[2 - j][i] for j in range(3)] for i in range(3)], dtype=out.dtype)
+    return out
+
+
+def _stamp(shape: Tuple[int, int], block: np.ndarray, r: int, c: int) -> np.ndarray:
+    g = np.zeros(shape, dtype=np.int64)
+    g[r:r + 3, c:c + 3] = block
+    return g
 
 
 class A(Adapter):
     name = "FlatPack"
     mask_mode = "joint"
     fork_every = 4
+    has_invalid_effect = True
+    has_constraints = True
+    has_objective = True
+    has_model = True
+    has_observer = True
+
+    def __init__(self) -> None:
+        self._plans: Dict[bytes, List[List[int]]] = {}
 
     def configs(self):
         return [
@@ -33,3 +71,210 @@ class A(Adapter):
 
     def horizon(self, env, c):
         return c["rb"] * c["cb"]
+
+    # ---- rules ---------------------------------------------------------------------------------
+    def legal(self, s: Any, env: Any) -> np.ndarray:
+        grid = np.asarray(s.grid)
+        blocks = np.asarray(s.blocks)
+        placed = np.asarray(s.placed_blocks).astype(bool)
+        R, C = grid.shape
+        nb = blocks.shape[0]
+        covered = (grid != 0).astype(np.int64)
+        win = np.lib.stride_tricks.sliding_window_view(covered, (3, 3))  # (R-2, C-2, 3, 3): window with top-left (r, c)
+        shapes = np.zeros((nb, 4, 3, 3), dtype=np.int64)
+        for b in range(nb):
+            for k in range(4):
+                shapes[b, k] = _rot(blocks[b], k) != 0
+        clash = np.tensordot(shapes, win, axes=([2, 3], [2, 3]))  # (nb, 4, R-2, C-2): block cells landing on covered cells
+        return (clash == 0) & ~placed[:, None, None, None]
+
+    def describe(self, s, env, idx):
+        b, k, r, c = idx
+        return (f"block {b} placed={bool(np.asarray(s.placed_blocks)[b])} rotated {k}x =\n{_rot(np.asarray(s.blocks)[b], k)}\nat ({r},{c}) on grid\n"
+                f"{np.asarray(s.grid)}")
+
+    @staticmethod
+    def _nb(s: Any) -> int:
+        return int(np.asarray(s.blocks).shape[0])
+
+    def _reward_for(self, s: Any, shape_cells: int, cfg: Dict[str, Any]) -> float:
+        g = np.asarray(s.grid)
+        return shape_cells / float(g.size) if cfg["rew"] == "cell" else 1.0 / self._nb(s)
+
+    # ---- C05 -------------------------------------------------------------------------------------
+    def invalid_effect(self, ps, action, illegal, s, ts, env, cfg):
+        if not np.array_equal(np.asarray(s.grid), np.asarray(ps.grid)):
+            return ("illegal_move_changed_grid", f"grid changed:\n{np.asarray(ps.grid)}\n->\n{np.asarray(s.grid)}")
+        if not np.array_equal(np.asarray(s.placed_blocks), np.asarray(ps.placed_blocks)):
+            return ("illegal_move_placed_block", f"placed_blocks {np.asarray(ps.placed_blocks).tolist()} -> {np.asarray(s.placed_blocks).tolist()}")
+        if not np.array_equal(np.asarray(s.blocks), np.asarray(ps.blocks)):
+            return ("illegal_move_changed_blocks", "the set of blocks changed")
+        if float(ts.reward) != 0.0:
+            return ("illegal_move_rewarded", f"reward {float(ts.reward)} although nothing was placed")
+        sc = int(ps.step_count) + 1
+        if int(s.step_count) != sc:
+            return ("step_count", f"step_count {int(s.step_count)} expected {sc}")
+        # the episode continues - except that every FlatPack episode lasts exactly num_blocks steps
+        want_last = sc >= self._nb(ps)
+        if (int(ts.step_type) == 2) != want_last:
+            return ("illegal_move_termination", f"step_type {int(ts.step_type)} at step {sc} of {self._nb(ps)} after an ignored move")
+        return None
+
+    # ---- C06 -------------------------------------------------------------------------------------
+    def constraints(self, hist, env, cfg):
+        s = hist[-1].state
+        grid = np.asarray(s.grid)
+        blocks = np.asarray(hist[0].state.blocks)
+        nb = blocks.shape[0]
+        mine = np.zeros(grid.shape, dtype=np.int64)
+        done: Dict[int, int] = {}
+        for rec in hist[1:]:
+            b, k, r, c = (int(v) for v in rec.action)
+            if b in done:
+                return ("block_placed_twice", f"block {b} was placed at step {done[b]} and again at step {rec.t}")
+            g = _stamp(grid.shape, _rot(blocks[b], k), r, c)
+            if ((mine != 0) & (g != 0)).any():
+                cell = np.argwhere((mine != 0) & (g != 0))[0].tolist()
+                return ("cell_covered_twice", f"step {rec.t}: block {b} rotated {k}x at ({r},{c}) covers cell {cell} already covered by block value "
+                        f"{int(mine[tuple(cell)])}")
+            mine += g
+            done[b] = rec.t
+        if not np.array_equal(np.asarray(s.blocks), blocks):
+            return ("blocks_changed", "state.blocks differs from the blocks of the reset state")
+        if not np.array_equal(grid, mine):
+            cell = np.argwhere(grid != mine)[0].tolist()
+            return ("grid_differs_from_history", f"cell {cell} holds {int(grid[tuple(cell)])} but the placements of the action history give {int(mine[tuple(cell)])}")
+        placed = np.flatnonzero(np.asarray(s.placed_blocks).astype(bool)).tolist()
+        if placed != sorted(done):
+            return ("placed_set_differs_from_history", f"placed_blocks {placed} but the actions placed {sorted(done)}")
+        if len(hist) > 1 and int(hist[-1].ts.step_type) == 2 and len(done) == nb and not (grid != 0).all():
+            return ("complete_but_cells_uncovered", f"all {nb} blocks placed but cells {np.argwhere(grid == 0)[:4].tolist()} are empty")
+        return None
+
+    # ---- C08 -------------------------------------------------------------------------------------
+    def objective(self, hist, env, cfg):
+        s = hist[-1].state
+        if cfg["rew"] == "cell":
+            g = np.asarray(s.grid)
+            return float(np.count_nonzero(g)) / float(g.size)
+        return float(np.count_nonzero(np.asarray(s.placed_blocks))) / float(self._nb(s))
+
+    # ---- C09 -------------------------------------------------------------------------------------
+    def model_step(self, ps, action, s, ts, env, cfg):
+        b, k, r, c = (int(v) for v in action)
+        grid = np.asarray(ps.grid).astype(np.int64)
+        blocks = np.asarray(ps.blocks)
+        placed = np.asarray(ps.placed_blocks).astype(bool).copy()
+        nb = blocks.shape[0]
+        piece = _rot(blocks[b], k)
+        ok = (not placed[b]) and not ((grid[r:r + 3, c:c + 3] != 0) & (piece != 0)).any()
+        if ok:
+            grid = grid + _stamp(grid.shape, piece, r, c)
+            placed[b] = True
+            reward = self._reward_for(ps, int(np.count_nonzero(piece)), cfg)
+        else:
+            reward = 0.0
+        sc = int(ps.step_count) + 1
+        done = bool((grid != 0).all()) or sc >= nb
+        if not np.array_equal(np.asarray(s.grid), grid):
+            cell = np.argwhere(np.asarray(s.grid) != grid)[0].tolist()
+            return ("grid", f"{'legal' if ok else 'illegal'} action: cell {cell} is {int(np.asarray(s.grid)[tuple(cell)])}, the rules give {int(grid[tuple(cell)])}")
+        if not np.array_equal(np.asarray(s.placed_blocks).astype(bool), placed):
+            return ("placed_blocks", f"placed_blocks {np.asarray(s.placed_blocks).tolist()} expected {placed.tolist()}")
+        if not np.array_equal(np.asarray(s.blocks), blocks):
+            return ("blocks", "blocks changed")
+        if int(s.num_blocks) != int(ps.num_blocks):
+            return ("num_blocks", f"num_blocks {int(s.num_blocks)} was {int(ps.num_blocks)}")
+        if int(s.step_count) != sc:
+            return ("step_count", f"step_count {int(s.step_count)} expected {sc}")
+        if not np.isclose(float(ts.reward), reward, rtol=1e-5, atol=1e-6):
+            return ("reward", f"reward {float(ts.reward)} expected {reward} ({'legal' if ok else 'illegal'} action, {cfg['rew']} reward)")
+        if (int(ts.step_type) == 2) != done:
+            return ("termination", f"step_type {int(ts.step_type)} but the rules say done={done} (step {sc}/{nb})")
+        return None
+
+    # ---- C12 -------------------------------------------------------------------------------------
+    def observe(self, s, obs, env, cfg):
+        for f_obs, f_state in (("grid", "grid"), ("blocks", "blocks"), ("action_mask", "action_mask")):
+            a, b = np.asarray(getattr(obs, f_obs)), np.asarray(getattr(s, f_state))
+            if a.shape != b.shape or not np.array_equal(a, b):
+                where = np.argwhere(a != b)[0].tolist() if a.shape == b.shape else [a.shape, b.shape]
+                return (f_obs, f"observation.{f_obs} differs from state.{f_state} at {where}")
+        return None
+
+    # ---- policies ----------------------------------------------------------------------------------
+    def _solve(self, grid: np.ndarray, blocks: np.ndarray, placed: np.ndarray, ncb: int) -> Optional[List[List[int]]]:
+        """Depth-first search for a full cover in which block number n sits in the 3x3 region it was cut from
+        (rows 2i..2i+2, cols 2j..2j+2 with (i, j) = divmod(n - 1, num_col_blocks))."""
+        R, C = grid.shape
+        nrb = (R - 1) // 2
+        numbers = [int(blocks[b].max()) for b in range(len(blocks))]
+        todo = sorted((b for b in range(len(blocks)) if not placed[b]), key=lambda b: numbers[b])
+        variants: Dict[int, List[Tuple[int, int, int, np.ndarray]]] = {}
+        for b in todo:
+            i, j = divmod(numbers[b] - 1, ncb)
+            if not (0 <= i < nrb and 0 <= j < ncb):
+                return None
+            region = np.zeros((R, C), bool)
+            region[2 * i:2 * i + 3, 2 * j:2 * j + 3] = True
+            out = []
+            seen = set()
+            for k in range(4):
+                piece = _rot(blocks[b], k) != 0
+                for r in range(max(0, 2 * i - 2), min(R - 3, 2 * i + 2) + 1):
+                    for c in range(max(0, 2 * j - 2), min(C - 3, 2 * j + 2) + 1):
+                        cells = _stamp((R, C), piece, r, c).astype(bool)
+                        if (cells & ~region).any() or cells.tobytes() in seen:
+                            continue
+                        seen.add(cells.tobytes())
+                        out.append((k, r, c, cells))
+            variants[b] = out
+        nodes = [0]
+
+        def rec(n: int, occ: np.ndarray) -> Optional[List[List[int]]]:
+            if n == len(todo):
+                return [] if occ.all() else None
+            nodes[0] += 1
+            if nodes[0] > 20000:
+                return None
+            b = todo[n]
+            i, j = divmod(numbers[b] - 1, ncb)
+            r_hi = 2 * i + 2 if i < nrb - 1 else R
+            c_hi = 2 * j + 2 if j < ncb - 1 else C
+            for k, r, c, cells in variants[b]:
+                if (occ & cells).any():
+                    continue
+                occ2 = occ | cells
+                if not occ2[2 * i:r_hi, 2 * j:c_hi].all():  # only blocks numbered <= n can reach these cells
+                    continue
+                rest = rec(n + 1, occ2)
+                if rest is not None:
+                    return [[b, k, r, c]] + rest
+            return None
+
+        return rec(0, grid != 0)
+
+    def policy_complete(self, s, env, rng, legal):
+        """Follow a full cover found by search (every block back into the region it was cut from)."""
+        if legal is None or not legal.any():
+            return None
+        grid = np.asarray(s.grid).astype(np.int64)
+        blocks = np.asarray(s.blocks)
+        key = blocks.tobytes() + grid.tobytes()
+        plan = self._plans.get(key)
+        if plan is None:
+            if len(self._plans) > 256:
+                self._plans.clear()
+            plan = self._solve(grid, blocks, np.asarray(s.placed_blocks).astype(bool), (grid.shape[1] - 1) // 2) or []
+            g = grid.copy()
+            for n, (b, k, r, c) in enumerate(plan):  # remember the continuation for the states along the plan
+                self._plans[blocks.tobytes() + g.tobytes()] = plan[n:]
+                g = g + _stamp(g.shape, _rot(blocks[b], k), r, c)
+            self._plans.setdefault(key, plan)
+        if not plan:
+            return None
+        a = plan[0]
+        return a if legal[tuple(a)] else None
+
+    # episodes have a fixed length; "staying alive" here means not running into a position without legal moves
+    policy_survive = policy_complete
